@@ -504,6 +504,66 @@ def expected (g : Geometry) (opts : EncOpts) : Geometry :=
   { isMesh := g.isMesh, numPoints := g.numPoints, faces := if g.isMesh then g.faces else [],
     atts := (zipIdxFrom 0 g.atts).map fun ia => expectedAttributeOf opts g.numPoints ia.1 ia.2 }
 
+/-- what a decode with `SetSkipAttributeTransform` for the attribute types `skip` returns for the
+    encoder state `e`: attributes of the integer-family encoders whose type is skipped come back as
+    their portable attribute (int32 values, transform data attached, `CopyFrom(*portable_attribute)`),
+    everything else as in the ordinary decode -/
+def expectedAttributeSkip (skip : List Nat) (numPoints : Nat) (a : Attribute) (e : AttEnc) : Attribute :=
+  if e.encType != 0 && skip.contains a.attType then
+    { attType := a.attType, dataType := Generated.DT_INT32.toNat,
+      numComponents := if e.encType == 3 then 2 else a.numComponents, normalized := false,
+      uniqueId := a.uniqueId, numValues := numPoints, map := none,
+      values := (e.portable.map (intToLE 4)).flatten, transform := e.transform }
+  else expectedAttribute numPoints a e
+
+def expectedGeometrySkip (skip : List Nat) (g : Geometry) (encs : List AttEnc) : Geometry :=
+  { isMesh := g.isMesh, numPoints := g.numPoints, faces := if g.isMesh then g.faces else [],
+    atts := List.zipWith (expectedAttributeSkip skip g.numPoints) g.atts encs }
+
+/-- the portable (int32) values and the transform data of attribute `i`, from input and options alone -/
+def portableOf (opts : EncOpts) (numPoints i : Nat) (a : Attribute) : List Int × TransformData :=
+  let o := opts.att i
+  let rows := pointRows a numPoints
+  match encoderType a o with
+  | 0 => ([], .none)
+  | 1 => ((integerPortable a rows).getD [], .none)
+  | 2 =>
+    (match quantizationParams a o with
+     | some (mins, range, q) => (quantizedPortable mins range q a.numComponents rows, .quantization q mins range)
+     | none => ([], .none))
+  | _ =>
+    (match Octa.init o.quantBits.toNat with
+     | some t => (octaPortable t rows, .octahedron o.quantBits.toNat)
+     | none => ([], .none))
+
+/-- choice-free form of `expectedAttributeSkip` -/
+def expectedSkipAttributeOf (skip : List Nat) (opts : EncOpts) (numPoints i : Nat) (a : Attribute) : Attribute :=
+  let ty := encoderType a (opts.att i)
+  if ty != 0 && skip.contains a.attType then
+    { attType := a.attType, dataType := Generated.DT_INT32.toNat,
+      numComponents := if ty == 3 then 2 else a.numComponents, normalized := false,
+      uniqueId := a.uniqueId, numValues := numPoints, map := none,
+      values := ((portableOf opts numPoints i a).1.map (intToLE 4)).flatten,
+      transform := (portableOf opts numPoints i a).2 }
+  else expectedAttributeOf opts numPoints i a
+
+/-- `expectedSkip S g opts`: what decoding the encoded `g` with the attribute transforms of the types
+    in `S` skipped must return -/
+def expectedSkip (skip : List Nat) (g : Geometry) (opts : EncOpts) : Geometry :=
+  { isMesh := g.isMesh, numPoints := g.numPoints, faces := if g.isMesh then g.faces else [],
+    atts := (zipIdxFrom 0 g.atts).map fun ia => expectedSkipAttributeOf skip opts g.numPoints ia.1 ia.2 }
+
+/-- what the application (or `Spec.skipCheck`) does with an attribute whose transform was skipped:
+    reinterpret the values as int32 and apply the inverse transform described by the attached
+    transform data (`InverseTransformAttribute`; for plain integer attributes the narrowing cast of
+    `StoreValues` to the original data type `dt`) -/
+def applySkippedTransform (dt : Nat) (s : Attribute) : Bytes :=
+  let portable := (leGroups 4 s.values).map (toSigned 32)
+  match s.transform with
+  | .none => (portable.map (intToLE (dataTypeLength dt))).flatten
+  | .quantization bits mins range => (dequantAll range bits.toNat mins portable mins []).flatten
+  | .octahedron bits => (octaAll bits.toNat portable []).flatten
+
 /-- float oracle hypothesis for one normal: the first rounded coordinate computed by
     `FloatVectorToQuantizedOctahedralCoords` has magnitude at most `center_value_` (holds for every
     input as far as tested — the driver op `seqenc` evaluates it on every case; it cannot be proved
